@@ -64,6 +64,16 @@ def run(prop, tier, seed, ctx):
         acc, rej, tres = tlc.validate_traces("TraceLedger", "TraceLedger.cfg", evs, timeout=600)
         ctx.add_tlc(tres, "ledger / stack contract on %d sandboxes used by the repository's own test-suite" % len(led))
         ctx.cov["traces_validated_against_impl"] += len(led)
+        # binding self-test: a recorded field that is corrupted must be rejected
+        import copy
+        bad = [copy.deepcopy(e) for e in evs if any(x.get("share") for x in e)][:30]
+        for e in bad:
+            x = [y for y in e if y.get("share")][0]
+            x["raw"] = x["raw"] + ["!"]
+        a2, r2, _ = tlc.validate_traces("TraceLedger", "TraceLedger.cfg", bad, timeout=300)
+        if bad and a2:
+            raise MachineryError("binding self-test: %d corrupted suite traces accepted" % a2)
+        ctx.notes.append("self-test: %d corrupted suite traces rejected" % len(bad))
         for tid, pos, mask in rej:
             m = int(mask)
             ev = led[tid - 1]["events"][pos - 1]
